@@ -1,6 +1,7 @@
 """C12 - array operators and aggregate helpers have pointwise / mathematical meaning"""
 import json
 import multiprocessing as mp
+from harness.par import RobustPool
 import operator
 
 from harness.common import Check, NPROC, chunks, write_ndjson
@@ -125,7 +126,7 @@ def run(tier, seed):
     res = run_tlc("MC_Array", "MC_Array", workdir=chk.dir, env={"TIER": tier}, timeout=1800)
     chk.add_tlc(res)
     cases = [(r["id"], r["case"]) for r in sorted(res.records, key=lambda r: r["id"])]
-    with mp.get_context("fork").Pool(NPROC) as pool:
+    with RobustPool(NPROC) as pool:
         outs = pool.map(work, chunks(cases, NPROC * 4))
     recs = [x for o in outs for x in o]
     by_id = dict(cases)
